@@ -8,6 +8,9 @@
      Prime(s, ..) / PItem(s, cl, a, v)    a message of the priming report / one value in it
      Est(s, id, max)                      SubscribeResponse: established with this id and max interval (seconds)
      Rep(id, n, more, t) / Item(id, ..)   a report message on subscription id, as the controller's handler sees it
+     Emit(no, len)                        event number no with len bytes of data occurred (cluster 101)
+     PEvent(s, evno, len) / Event(id, evno, len)   an event in the priming report / in a later report; a subscription
+                                          with events = TRUE must be told every event exactly once, in order
      Lose(n)                              the next n datagrams of the device are lost (arrival times of reports then say
                                           nothing about when they were sent: MinInterval is not judged after that)
      Quiet(ver, dev_subs, t)              more than the max interval passed undisturbed; current versions; the ids the
@@ -21,49 +24,58 @@ CONSTANTS Clusters, Attrs, TolMs, SlackMs
 Rec == ndJsonDeserialize(IOEnv.TRACE)
 All == Clusters \X Attrs
 Sel(paths) == {p \in All : \E k \in 1..Len(paths) : (paths[k][1] \in {-1, p[1]}) /\ (paths[k][2] \in {-1, p[2]})}
-NoSub == [live |-> FALSE, ending |-> FALSE, est |-> FALSE, sel |-> {}, min |-> 0, max |-> 0, id |-> -1, last |-> 0, mid |-> FALSE, got |-> {}, known |-> [p \in All |-> -1]]
-VARIABLES i, ver, sub, lossy
-vars == <<i, ver, sub, lossy>>
-Init == i = 1 /\ ver = [p \in All |-> 0] /\ sub = [s \in 1..2 |-> NoSub] /\ lossy = FALSE
+NoSub == [live |-> FALSE, ending |-> FALSE, est |-> FALSE, sel |-> {}, min |-> 0, max |-> 0, id |-> -1, last |-> 0, mid |-> FALSE, got |-> {}, wantEv |-> FALSE, evNext |-> 1, known |-> [p \in All |-> -1]]
+VARIABLES i, ver, sub, lossy, emitted      \* emitted: the events that occurred, in order: <<number, length>>
+vars == <<i, ver, sub, lossy, emitted>>
+Init == i = 1 /\ ver = [p \in All |-> 0] /\ sub = [s \in 1..2 |-> NoSub] /\ lossy = FALSE /\ emitted = <<>>
 IsEvent(x) == i <= Len(Rec) /\ Rec[i].ev = x /\ i' = i + 1
 R == Rec[i]
 P == <<R.cl, R.a>>
 ById(id) == {s \in 1..2 : sub[s].live /\ sub[s].est /\ sub[s].id = id}
-Reset == IsEvent("Reset") /\ ver' = [p \in All |-> 0] /\ sub' = [s \in 1..2 |-> NoSub] /\ lossy' = FALSE
-Change == IsEvent("Change") /\ R.v = ver[P] + 1 /\ ver' = [ver EXCEPT ![P] = R.v] /\ UNCHANGED <<sub, lossy>>
+Reset == IsEvent("Reset") /\ ver' = [p \in All |-> 0] /\ sub' = [s \in 1..2 |-> NoSub] /\ lossy' = FALSE /\ emitted' = <<>>
+Emit == IsEvent("Emit") /\ emitted' = Append(emitted, <<R.no, R.len>>) /\ UNCHANGED <<ver, sub, lossy>>
+\* the next event this subscriber has not been told yet, with its data
+EventOk(s, evno, len) == /\ sub[s].wantEv /\ sub[s].evNext <= Len(emitted)
+                         /\ emitted[sub[s].evNext] = <<evno, len>>
+PEvent == IsEvent("PEvent") /\ sub[R.s].live /\ ~sub[R.s].est /\ EventOk(R.s, R.evno, R.len)
+          /\ sub' = [sub EXCEPT ![R.s].evNext = @ + 1] /\ UNCHANGED <<ver, lossy, emitted>>
+Event == IsEvent("Event") /\ UNCHANGED <<ver, lossy, emitted>>
+         /\ \E s \in ById(R.id) : EventOk(s, R.evno, R.len) /\ sub' = [sub EXCEPT ![s].evNext = @ + 1]
+Change == IsEvent("Change") /\ R.v = ver[P] + 1 /\ ver' = [ver EXCEPT ![P] = R.v] /\ UNCHANGED <<sub, lossy, emitted>>
 \* keep = FALSE: the other subscriptions end when the device handles the request - at the latest when it answers it
-SubReq == IsEvent("SubReq") /\ UNCHANGED <<ver, lossy>>
-          /\ sub' = [s \in 1..2 |-> IF s = R.s THEN [NoSub EXCEPT !.live = TRUE, !.sel = Sel(R.paths), !.min = R.min]
+SubReq == IsEvent("SubReq") /\ UNCHANGED <<ver, lossy, emitted>>
+          /\ sub' = [s \in 1..2 |-> IF s = R.s THEN [NoSub EXCEPT !.live = TRUE, !.sel = Sel(R.paths), !.min = R.min, !.wantEv = ("events" \in DOMAIN R /\ R.events)]
                                    ELSE IF ~R.keep THEN [sub[s] EXCEPT !.ending = TRUE] ELSE sub[s]]
-Lose == IsEvent("Lose") /\ lossy' = TRUE /\ UNCHANGED <<ver, sub>>
-Prime == IsEvent("Prime") /\ R.malformed = "" /\ sub[R.s].live /\ ~sub[R.s].est /\ UNCHANGED <<ver, sub, lossy>>
+Lose == IsEvent("Lose") /\ lossy' = TRUE /\ UNCHANGED <<ver, sub, emitted>>
+Prime == IsEvent("Prime") /\ R.malformed = "" /\ sub[R.s].live /\ ~sub[R.s].est /\ UNCHANGED <<ver, sub, lossy, emitted>>
 ValueOk(s, p, v) == p \in sub[s].sel /\ v >= 0 /\ v <= ver[p] /\ v >= sub[s].known[p]
 \* (C14 on the priming report: every selected attribute exactly once)
 PItem == IsEvent("PItem") /\ sub[R.s].live /\ ~sub[R.s].est /\ ValueOk(R.s, P, R.v) /\ P \notin sub[R.s].got
-         /\ sub' = [sub EXCEPT ![R.s].known[P] = R.v, ![R.s].got = @ \cup {P}] /\ UNCHANGED <<ver, lossy>>
+         /\ sub' = [sub EXCEPT ![R.s].known[P] = R.v, ![R.s].got = @ \cup {P}] /\ UNCHANGED <<ver, lossy, emitted>>
 Est == IsEvent("Est") /\ sub[R.s].live /\ ~sub[R.s].est
        /\ sub[R.s].got = sub[R.s].sel                                       \* the priming report carried everything
        /\ R.max >= sub[R.s].min
        /\ sub' = [s \in 1..2 |-> IF s = R.s THEN [sub[s] EXCEPT !.est = TRUE, !.id = R.id, !.max = R.max, !.last = R.t]
                                    ELSE IF sub[s].ending THEN NoSub ELSE sub[s]]
-       /\ UNCHANGED <<ver, lossy>>
+       /\ UNCHANGED <<ver, lossy, emitted>>
 SubFailed == IsEvent("SubFailed") /\ FALSE /\ UNCHANGED vars                                   \* no schedule of this world makes a subscription fail
-Rep == IsEvent("Rep") /\ R.malformed = "" /\ UNCHANGED <<ver, lossy>>
+Rep == IsEvent("Rep") /\ R.malformed = "" /\ UNCHANGED <<ver, lossy, emitted>>
        /\ \E s \in ById(R.id) :
             /\ (~sub[s].mid /\ ~lossy => R.t + TolMs >= sub[s].last + sub[s].min * 1000)      \* MinInterval
             /\ R.t <= sub[s].last + sub[s].max * 1000 + SlackMs                      \* LivenessBeforeMax
             /\ sub' = [sub EXCEPT ![s].mid = R.more, ![s].last = IF R.more THEN @ ELSE R.t]
-Item == IsEvent("Item") /\ UNCHANGED <<ver, lossy>>
+Item == IsEvent("Item") /\ UNCHANGED <<ver, lossy, emitted>>
         /\ \E s \in ById(R.id) : ValueOk(s, P, R.v) /\ sub' = [sub EXCEPT ![s].known[P] = R.v]
-Quiet == IsEvent("Quiet") /\ UNCHANGED <<ver, sub, lossy>>
+Quiet == IsEvent("Quiet") /\ UNCHANGED <<ver, sub, lossy, emitted>>
          /\ \A s \in 1..2 : (sub[s].live /\ ~sub[s].ending) =>
               /\ sub[s].est /\ ~sub[s].mid
               /\ \E k \in 1..Len(R.dev_subs) : R.dev_subs[k] = sub[s].id                \* the device still holds it
               /\ \A p \in sub[s].sel : sub[s].known[p] = ver[p]                          \* NoLostUpdate
+              /\ sub[s].wantEv => sub[s].evNext = Len(emitted) + 1                       \* ... and every event
               /\ R.t <= sub[s].last + sub[s].max * 1000 + SlackMs                        \* and it is being kept alive
-End == IsEvent("End") /\ R.done /\ UNCHANGED <<ver, sub, lossy>>
-Other == i <= Len(Rec) /\ Rec[i].ev \notin {"Reset", "Change", "SubReq", "Lose", "Prime", "PItem", "Est", "SubFailed", "Rep", "Item", "Quiet", "End"} /\ i' = i + 1 /\ UNCHANGED <<ver, sub, lossy>>
-Next == Reset \/ Change \/ SubReq \/ Lose \/ Prime \/ PItem \/ Est \/ SubFailed \/ Rep \/ Item \/ Quiet \/ End \/ Other
+End == IsEvent("End") /\ R.done /\ UNCHANGED <<ver, sub, lossy, emitted>>
+Other == i <= Len(Rec) /\ Rec[i].ev \notin {"Reset", "Change", "SubReq", "Lose", "Emit", "PEvent", "Event", "Prime", "PItem", "Est", "SubFailed", "Rep", "Item", "Quiet", "End"} /\ i' = i + 1 /\ UNCHANGED <<ver, sub, lossy, emitted>>
+Next == Reset \/ Change \/ SubReq \/ Lose \/ Emit \/ PEvent \/ Event \/ Prime \/ PItem \/ Est \/ SubFailed \/ Rep \/ Item \/ Quiet \/ End \/ Other
 Spec == Init /\ [][Next]_vars
 TraceAccepted ==
   LET d == TLCGet("stats").diameter IN
